@@ -110,6 +110,31 @@ func (s *followerReplication) notifyAll(leader bool) {
 	}
 }
 
+// takeNotify removes and returns the verify futures registered so far. Only
+// these may be answered by the response to a request sent after this call: a
+// future registered while a request is in flight must wait for the next one,
+// otherwise an acknowledgement produced before VerifyLeader was called would
+// be counted.
+func (s *followerReplication) takeNotify() map[*verifyFuture]struct{} {
+	s.notifyLock.Lock()
+	n := s.notify
+	s.notify = make(map[*verifyFuture]struct{})
+	s.notifyLock.Unlock()
+	return n
+}
+
+// returnNotify re-registers verify futures that a failed exchange could not answer.
+func (s *followerReplication) returnNotify(n map[*verifyFuture]struct{}) {
+	if len(n) == 0 {
+		return
+	}
+	s.notifyLock.Lock()
+	for v := range n {
+		s.notify[v] = struct{}{}
+	}
+	s.notifyLock.Unlock()
+}
+
 // cleanNotify is used to delete notify, .
 func (s *followerReplication) cleanNotify(v *verifyFuture) {
 	s.notifyLock.Lock()
@@ -373,8 +398,6 @@ func (r *Raft) sendLatestSnapshot(s *followerReplication) (bool, error) {
 		// Clear any failures
 		s.failures = 0
 
-		// Notify we are still leader
-		s.notifyAll(true)
 	} else {
 		s.failures++
 		r.logger.Warn("installSnapshot rejected to", "peer", peer.ID, "id", snapID)
@@ -409,7 +432,9 @@ func (r *Raft) heartbeat(s *followerReplication, stopCh chan struct{}) {
 		s.peerLock.RUnlock()
 
 		start := time.Now()
+		pending := s.takeNotify()
 		if err := r.trans.AppendEntries(peer.ID, peer.Address, &req, &resp); err != nil {
+			s.returnNotify(pending)
 			nextBackoffTime := cappedExponentialBackoff(failureWait, failures, maxFailureScale, r.config().HeartbeatTimeout/2)
 			r.logger.Error("failed to heartbeat to", "peer", peer.Address, "backoff time",
 				nextBackoffTime, "error", err)
@@ -434,7 +459,9 @@ func (r *Raft) heartbeat(s *followerReplication, stopCh chan struct{}) {
 				metrics.MeasureSince([]string{"raft", "replication", "heartbeat", string(peer.ID)}, start)
 			}
 
-			s.notifyAll(resp.Success)
+			for v := range pending {
+				v.vote(resp.Success)
+			}
 		}
 	}
 }
@@ -659,7 +686,4 @@ func updateLastAppended(s *followerReplication, req *AppendEntriesRequest) {
 		atomic.StoreUint64(&s.nextIndex, last.Index+1)
 		s.commitment.match(s.peer.ID, last.Index)
 	}
-
-	// Notify still leader
-	s.notifyAll(true)
 }
